@@ -101,8 +101,9 @@ def main(argv=None):
         print(l)
     ev = checks.evidence(prop, tier, seed, results, nviol, sorted(known_hit), time.time() - t0)
     selftest = checks.selftest(prop, tier, results, ev)
-    os.makedirs(os.path.join(ROOT, "evidence"), exist_ok=True)
-    with open(os.path.join(ROOT, "evidence", "%s.json" % prop), "w") as f:
+    evdir = os.environ.get("VERIF_EVIDENCE_DIR") or os.path.join(ROOT, "evidence")
+    os.makedirs(evdir, exist_ok=True)
+    with open(os.path.join(evdir, "%s.json" % prop), "w") as f:
         json.dump(ev, f, indent=1, default=str)
     cov = ev["coverage"]
     print("%s tier=%s seed=%d jobs=%d states=%d transitions=%d traces=%d exhaustive=%s violations=%d known=%d wall=%.1fs"
